@@ -186,8 +186,15 @@ def main(argv):
                     ConditionExpr(PRECONDITION, (lambda b, code=code, g=g: eval(code, g, dict(b))), "<extra>", 0, src)
                 )
             conditions = replace(conditions, pre=pre, post=[conditions.post[0]], counterexample_description_maker=describe)
-            options.deadline = _t.process_time() + timeout
-            analysis = analyze_calltree(options, conditions)
+            # CrossHair occasionally ends a refuting path of the E3b generator harnesses with "NotDeterministic" instead of the
+            # counterexample (observed in about every second run on one seeded change; cause not found - suspended generators of abandoned paths are closed in stmt.run, which lowered the rate); such a run carries no verdict and is repeated
+            for attempt in range(12):
+                cex.clear()
+                options.deadline = _t.process_time() + timeout
+                analysis = analyze_calltree(options, conditions)
+                if "args" in cex or not any("NotDeterministic" in (m.message or "") for m in analysis.messages):
+                    break
+                out["nondeterministic_retries"] = attempt + 1
         st = analysis.verification_status
         msgs = analysis.messages
         out["messages"] = [f"{m.state.name}: {m.message}" for m in msgs]
